@@ -119,13 +119,13 @@ def _base(rng, family, data, splits=None, extra=None):
 ODD_KINDS = ["data_after_response", "connect_no_path", "non_ascii_path", "invalid_utf8_path", "priority_idle_flood",
              "priority_before_headers", "rst_closed", "wu_closed", "continuation", "padded", "req_trailers",
              "ext_connect_no_protocol", "zero_data_flood", "settings_churn", "ping_flood", "huge_header",
-             "empty_header_value", "authority_non_utf8", "dup_pseudo", "rst_open", "data_on_idle_rst", "non_ascii_method"]
+             "empty_header_value", "authority_non_utf8", "dup_pseudo", "rst_open", "data_on_idle_rst", "non_ascii_method", "late_data_flood"]
 
 # kinds the statement names as "merely unusual or invalid at the HTTP level": siblings must complete
 STREAM_LEVEL = {"data_after_response", "connect_no_path", "non_ascii_path", "invalid_utf8_path", "rst_closed",
                 "wu_closed", "continuation", "padded", "req_trailers", "priority_before_headers",
                 "empty_header_value", "rst_open", "ping_flood", "settings_churn", "huge_header",
-                "priority_idle_flood", "zero_data_flood", "authority_non_utf8", "non_ascii_method"}
+                "priority_idle_flood", "zero_data_flood", "authority_non_utf8", "non_ascii_method", "late_data_flood"}
 
 
 def _case_grammar(rng, n, kind=None):
@@ -165,6 +165,39 @@ def _case_grammar(rng, n, kind=None):
         steps.append(["feed", fb.data(odd_sid, b"late-body", end_stream=rng.random() < 0.5)])
         if rng.random() < 0.5:
             steps.append(["feed", fb.data(odd_sid, b"more", end_stream=True)])
+    elif kind == "late_data_flood":
+        # several requests answered before their bodies arrive; the (ignored) late DATA adds up to more than the connection
+        # window; a well-formed sibling that uploads afterwards must still complete (flow control credit must not leak)
+        late = {}
+        sids = [odd_sid]
+        for _ in range(rng.choice([2, 3])):
+            sids.append(sid)
+            sid += 2
+        b = bytearray()
+        for s_ in sids:
+            b += fb.headers(s_, [(b":method", b"POST"), (b":scheme", b"http"), (b":path", b"/early"), (b":authority", b"h.example")], end_stream=False)
+            per = rng.choice([24000, 33000])
+            q, off = [], 0
+            while off < per:
+                k = min(16000, per - off)
+                q.append([fb.data(s_, b"L" * k, end_stream=(off + k >= per)), k])
+                off += k
+            late[s_] = q
+        steps.append(["feed", bytes(b)])
+        steps.append(["settle"])
+        up_sid = sid
+        sid += 2
+        up_tag = n * 10 + 8
+        tags.append((up_tag, up_sid))
+        by_tag[str(up_tag)] = tag_app(up_tag)
+        steps.append(["feed", fb.headers(up_sid, [(b":method", b"POST"), (b":scheme", b"http"), (b":path", b"/t%d" % up_tag), (b":authority", b"h.example")], end_stream=False)])
+        q, off, size = [], 0, 40000
+        while off < size:
+            k = min(16000, size - off)
+            q.append([fb.data(up_sid, b"U" * k, end_stream=(off + k >= size)), k])
+            off += k
+        late[up_sid] = q
+        extra_uploads = late
     elif kind == "connect_no_path":
         steps.append(["feed", fb.headers(odd_sid, [(b":method", b"CONNECT"), (b":authority", b"h.example:443")], end_stream=False)])
     elif kind == "non_ascii_path":
@@ -247,6 +280,10 @@ def _case_grammar(rng, n, kind=None):
     for _ in range(nsib - sib_before):
         steps.append(["feed", sibling()])
     steps.append(["settle"])
+    reactor = {"kind": "h2", "credit": "auto"}
+    if kind == "late_data_flood":
+        reactor.update(uploads=extra_uploads, uploads_wait=True)
+        steps += [["react", "pump"], ["settle"]]
     config = {"keep_alive_timeout": 5}
     if kind == "authority_non_utf8" or rng.random() < 0.2:
         config["server_names"] = ["h.example"]
@@ -254,7 +291,7 @@ def _case_grammar(rng, n, kind=None):
             "by_path": {"/early": [["respond", 200, [], b"early"]]}}
     return {
         "family": "h2.grammar." + kind, "backends": ["asyncio", "trio"], "config": config, "conn": {},
-        "apps": apps, "client": steps, "reactor": {"kind": "h2", "credit": "auto"},
+        "apps": apps, "client": steps, "reactor": reactor,
         "truth": {"kind": kind, "siblings": tags, "stream_level": kind in STREAM_LEVEL, "conn_error": expect_conn_error},
         "sched": {"seed": rng.randrange(1 << 30)}, "horizon": 200.0,
     }
